@@ -141,3 +141,26 @@ def main():
 
 if __name__ == '__main__':
     sys.exit(main())
+
+
+def _extra_selfchecks():
+    """CPython cross-check of facts used by the rindex / zero-padding / repeat models (concrete instances)."""
+    for s in ('', 'a*b*', '***', 'abc'):
+        for sub in ('*', 'b*', 'zz'):
+            try:
+                r = s.rindex(sub)
+                assert r == s.rfind(sub) and r >= 0
+            except ValueError:
+                assert s.rfind(sub) == -1
+    for v in (0, 5, 42, 999, 1000, 123456):
+        for n in (0, 1, 3, 6, 8):
+            t = f'{v:0{n}d}'
+            d = str(v)
+            assert t.endswith(d) and set(t[:len(t) - len(d)]) <= {'0'} and len(t) == max(len(d), n)
+    for c in '*0':
+        for n in (-1, 0, 1, 4):
+            assert (c * n) == ''.join(c for _ in range(max(n, 0)))
+    return True
+
+
+assert _extra_selfchecks()
